@@ -764,3 +764,36 @@ package gts
 //@   loop 1: decreases 0 - n
 //@   loop 2: invariant len(ff) == idx2 && fresh(ff)
 //@   loop 2: decreases len(featsOf(seq)) - idx2
+
+// IUPAC semantics, stated independently of the tables in nucleotide.go: the base set of
+// each letter as four membership predicates (upper or lower case), and its case.
+//@ spec func lc(c int) int = ite(65 <= c && c <= 90, c + 32, c)
+//@ spec func hasA(c int) bool = lc(c)=='a' || lc(c)=='r' || lc(c)=='m' || lc(c)=='w' || lc(c)=='d' || lc(c)=='h' || lc(c)=='v' || lc(c)=='n'
+//@ spec func hasC(c int) bool = lc(c)=='c' || lc(c)=='y' || lc(c)=='m' || lc(c)=='s' || lc(c)=='b' || lc(c)=='h' || lc(c)=='v' || lc(c)=='n'
+//@ spec func hasG(c int) bool = lc(c)=='g' || lc(c)=='r' || lc(c)=='k' || lc(c)=='s' || lc(c)=='b' || lc(c)=='d' || lc(c)=='v' || lc(c)=='n'
+//@ spec func hasT(c int) bool = lc(c)=='t' || lc(c)=='u' || lc(c)=='y' || lc(c)=='k' || lc(c)=='w' || lc(c)=='b' || lc(c)=='d' || lc(c)=='h' || lc(c)=='n'
+//@ spec func isIUPAC(c int) bool = hasA(c) || hasC(c) || hasG(c) || hasT(c)
+//@ spec func isUpper(c int) bool = 65 <= c && c <= 90
+// complOK(c, d): d is the complement of c: complementary base set, same case; bytes outside
+// the alphabet are unchanged.
+//@ spec func complOK(c int, d int) bool =
+//@   ite(isIUPAC(c), isIUPAC(d) && hasA(d) == hasT(c) && hasT(d) == hasA(c) && hasC(d) == hasG(c) && hasG(d) == hasC(c) && isUpper(d) == isUpper(c), d == c)
+
+//@ func Complement(seq Sequence) (out Sequence)
+//@   prop C18 C05 C11
+//@   requires !isnil(seq) && oldSeq(seq)
+//@   ensures !isnil(out) && len(bytesOf(out)) == len(bytesOf(seq)) && fresh(bytesOf(out))
+//@   ensures table: forall k in 0..len(bytesOf(out)): complOK(int(old(bytesOf(seq)[k])), int(bytesOf(out)[k]))
+//@   ensures dna: forall k in 0..len(bytesOf(out)): bytesOf(out)[k] != 'U' && bytesOf(out)[k] != 'u'
+//@   ensures count: len(featsOf(out)) == len(featsOf(seq)) && fresh(featsOf(out))
+//@   assigns nothing
+//@   loop 1: invariant len(ff) == len(featsOf(seq)) && fresh(ff)
+//@   loop 1: decreases len(ff) - i
+
+//@ func Transcribe(seq Sequence) (out Sequence)
+//@   prop C18 C11
+//@   requires !isnil(seq) && oldSeq(seq)
+//@   ensures !isnil(out) && len(bytesOf(out)) == len(bytesOf(seq)) && fresh(bytesOf(out))
+//@   ensures table: forall k in 0..len(bytesOf(out)): ite(lc(int(old(bytesOf(seq)[k]))) == 'a', lc(int(bytesOf(out)[k])) == 'u' && isUpper(int(bytesOf(out)[k])) == isUpper(int(old(bytesOf(seq)[k]))),
+//@        complOK(int(old(bytesOf(seq)[k])), int(bytesOf(out)[k])))
+//@   assigns nothing
